@@ -29,6 +29,32 @@ func c20Run(c *mon.Ctx) {
 	bad := func(sig, f string, a ...any) { c.Violation(sig, fmt.Sprintf(f, a...), fmt.Sprintf(f, a...)) }
 	reps := c.Pick(32, 400)
 
+	// ---- (0) categorisation must not depend on what was categorised before: the very first sweep of this
+	// fresh process runs in DESCENDING order, then ascending, then shuffled orders; all must agree ----
+	desc := make([]aucoalesce.AuditEventType, 65536)
+	for i := 65535; i >= 0; i-- {
+		desc[i] = aucoalesce.GetAuditEventType(auparse.AuditMessageType(i))
+	}
+	orderRand := c.Rand(77)
+	order := make([]int, 65536)
+	for i := range order {
+		order[i] = i
+	}
+	for pass := 0; pass < c.Pick(4, 40); pass++ {
+		if pass > 0 {
+			mon.Shuffle(orderRand, order)
+		}
+		for _, i := range order {
+			ev.Add(1)
+			if got := aucoalesce.GetAuditEventType(auparse.AuditMessageType(i)); got != desc[i] {
+				bad("category-depends-on-history", "record type %d was categorised %q in the first (descending) sweep of this process and %q in a later sweep", i, desc[i], got)
+				pass = 1 << 30
+				break
+			}
+		}
+	}
+	c.Add("categorisation_order_sweeps", 1)
+
 	// ---- (1) all 65536 record type codes ----
 	names := map[string]uint16{}
 	c.ForEach(65536, func(w, i int) {
